@@ -672,7 +672,7 @@ Definition trans_violation (g : goal) (r r' : region) : option string :=
 Definition final_violation (g : goal) (r : region) : option string :=
   if negb (same_placement (placement (peers r)) (g_target g)) then Some "final-peers-differ"
   else if negb (g_leader g =? 0) && negb (leader r =? g_leader g) then Some "final-leader-differs"
-  else if negb (match get_store_peer r (leader r) with Some p => role_eqb (prole p) Voter | None => false end)
+  else if negb (match get_store_peer r (leader r) with Some p => new_voter p | None => false end)
        then Some "final-leader-not-voter"
   else None.
 
@@ -701,7 +701,8 @@ Definition plan_ok (g : goal) (r : region) (ss : list step) : bool := negb (is_s
 
 Definition goal_of (b : bstate) : goal :=
   Goal (placement (b_target b)) (b_tleader b)
-       (Z.min (voters_old (b_origin b)) (voters_old (b_target b))).
+       (Z.min (Z.min (voters_old (b_origin b)) (voters_new (b_origin b)))
+              (Z.min (voters_old (b_target b)) (voters_new (b_target b)))).
 
 (* classes of inputs, used in signatures and as hypotheses of the theorems *)
 Definition overlap_add_remove (b : bstate) : bool :=
@@ -828,20 +829,25 @@ Definition mismatches := mismatches_from 0.
 Definition leave_goal (r : region) : goal :=
   Goal (placement (map leave_role (peers r))) 0 (Z.min (voters_old (peers r)) (voters_new (peers r))).
 
+(* a violating plan that is not the plan the model of the unchanged builder produces is a different
+   defect than the listed ones: it gets its own signature *)
+Definition unlike_model (c : ccase) : string :=
+  if bout_eqb (model_out c) (case_out c) then "" else ":plan-unlike-model".
+
 (* Monitor: the property evaluated on the plan the IMPLEMENTATION produced. *)
 Definition monitor (c : ccase) : option string :=
   match c with
   | CBuild i (Built ss _ _) _ =>
       match prepared i with
       | Some b => match plan_check (goal_of b) (i_region i) ss with
-                  | Some v => Some (sapp "C08:" (sapp (path_class b) (sapp ":" v)))
+                  | Some v => Some (sapp "C08:" (sapp (path_class b) (sapp ":" (sapp v (unlike_model c)))))
                   | None => None
                   end
       | None => None     (* reported as a mismatch *)
       end
   | CLeave _ r (Built ss _ _) _ =>
       match plan_check (leave_goal r) r ss with
-      | Some v => Some (sapp "C08:leave-joint:" v)
+      | Some v => Some (sapp "C08:leave-joint:" (sapp v (unlike_model c)))
       | None => None
       end
   | _ => None
